@@ -11,6 +11,7 @@ from vt.ref import pwl as rp
 ID = "C19"
 LEVEL = "exploration"
 LETTERS = (-2.0, 0.0, 0.5, 1.0, 3.0)
+LETTERS_TINY = (0.0, 3e-7, -1e-12, 1.0, 1e3)
 
 
 # ------------------------------------------------------- custom_reduce_prod
@@ -19,6 +20,9 @@ def crp_items(tier):
   for k in (1, 2, 3, 4) if tier == "quick" else (1, 2, 3, 4, 5):
     for layout in ("Nk", "kN", "NkM", "MNk1"):
       out.append(dict(kind="crp", k=k, layout=layout))
+      # the same with factors of tiny / large magnitude next to exact zeros: a factor of 3e-7 is
+      # not a zero (the custom gradient has separate branches for 0, 1 and >= 2 exact zeros)
+      out.append(dict(kind="crp", k=k, layout=layout, letters="tiny"))
   return out
 
 
@@ -26,7 +30,8 @@ def crp_case(item, ctx=None, only=None):
   tf, tfl = bind.bind()
   from tensorflow_lattice.python import kronecker_factored_lattice_lib as kl
   k = item["k"]
-  W = alpha.words(LETTERS, k).T  # (N, k): every zero pattern along the reduced axis
+  letters = LETTERS_TINY if item.get("letters") == "tiny" else LETTERS
+  W = alpha.words(letters, k).T  # (N, k): every zero pattern along the reduced axis
   if only is not None:
     W = np.asarray(only, dtype=np.float64)
   N = W.shape[0]
